@@ -14,7 +14,7 @@ CLAIMS = [
         "level_note": "Trusted: LALRPOP parsers accept only at end of stream; logos turns every input byte that no skip pattern matches "
                       "into a token or an Err item. F1 and F20 (both repaired) were found by / led to these rules. Text inside a "
                       "well-terminated block comment is comment by definition, whatever it contains (two agent-reported consequences are "
-                      "documented as candidates). The comment depth changes only under CommentOpen / CommentClose tokens (comment-depth rule).",
+                      "documented as candidates). The comment depth changes only under CommentOpen / CommentClose tokens (comment-depth rule). Round 3: the tools read a source file only with read_to_string (whole file or error); every other read / decode call is inventoried (source-readers, shared with C15).",
     },
     {
         "id": "C16",
@@ -90,7 +90,9 @@ CLAIMS = [
         "level_note": "Trusted: core's wrapping_*, PartialOrd, IEEE operators, TryInto, ToString. Native back ends (runtime/stub.rs) are "
                       "outside the cargo workspace and not covered. The Float32 acceptance table checked is the property's (finite after "
                       "narrowing): F35 (`1e999 : Float32` accepted) was repaired after a seeding agent showed my table had copied the code. "
-                      "Known finding F36: decimal text is rounded twice on the way to Float32 (text -> f64 -> f32).",
+                      "Known finding F36: decimal text is rounded twice on the way to Float32 (text -> f64 -> f32). Round 3: `Int64 when nothing "
+                      "selects a type` — an expected type that is a SOLVED inference variable selects its solution (F65, reported by a "
+                      "seeding agent: `! pick _ b 255` with `b : UInt8` was rejected; repaired, rule added).",
     },
     {
         "id": "C06",
@@ -318,7 +320,7 @@ CLAIMS = [
                       "<product:2/2>) could only be read off the IR text, not executed. It is now known finding F39: the layout-stability rule "
                       "names its structural cause (product_arity flattens syntactic product tails and counts abstract tails as one word). "
                       "Both lowering passes are pinned arm by arm by audited traces (rules/golden_lowering.json), read against the CK machine "
-                      "of C02.",
+                      "of C02. Round 3: every selector of an arm by tag takes the first arm for a constructor, like the interpreter (F64: the AMD64 jump table kept the last; repaired).",
     },
 ]
 
